@@ -145,8 +145,10 @@ def run_mode(ctx, mode):
                 plen = sum(GRAPH[x]["ln"] for _, x in w)
                 ps = rnd.randint(0, plen - 1)
                 recs.append({"walk": w, "ps": ps, "pe": rnd.randint(ps + 1, plen)})
-        big = ctx.thorough and ri % 10 == 0
-        jobs.append((f"r{ri}", recs, mode, rnd.choice(["plain", "bgzf"]), rnd.random() < 0.5, rnd.random() < 0.3, 4000 if big else rnd.choice([0, 0, 60]), 60000 if big else 200))
+        big = ri % 10 == 0 if ctx.thorough else ri in (0, 1)    # output beyond one 64 KiB BGZF block
+        if big and not ctx.thorough:
+            recs = recs + [rnd.choice(POOL) for _ in range(30)]
+        jobs.append((f"r{ri}", recs, mode, rnd.choice(["plain", "bgzf"]), True if big else rnd.random() < 0.5, rnd.random() < 0.3, 4000 if big else rnd.choice([0, 0, 60]), 60000 if big else 200))
     # the three-sentence special cases of C10: every alignment touches a reference node / none does
     allref = [p for p in POOL if any(GRAPH[n]["sr"] == 0 for _, n in p["walk"])]
     noref = [p for p in POOL if not any(GRAPH[n]["sr"] == 0 for _, n in p["walk"])]
